@@ -65,10 +65,12 @@ def readable (f : Faults) (r : FileRec) : Bool := !f.openFail r.path && !f.fileS
 def reached (c : Cfg) (f : Faults) (above : List GiEntry) (r : FileRec) : Bool :=
   (List.range r.dirs.length).all (dirPasses c f above r.dirs) && fileEligible c f above r
 
-/-- the `Extract` calls owed to one file -/
+/-- the extraction attempts owed to one file: one per extractor that requires it, in configuration
+order; `Extract` is really called when the file can be opened and stat'ed (`opened`), otherwise the
+attempt only leaves an error with the extractor -/
 def mustOne (c : Cfg) (f : Faults) (above : List GiEntry) (r : FileRec) : List Call :=
-  if reached c f above r && sizeOk c f r && readable f r
-  then ((List.range c.nExt).filter fun e => c.required e r.path).map fun e => ⟨e, r.path, r.size⟩
+  if reached c f above r && sizeOk c f r
+  then ((List.range c.nExt).filter fun e => c.required e r.path).map fun e => ⟨e, r.path, r.size, readable f r⟩
   else []
 
 /-- calls owed to a walk that starts at directory/file node `n` located at `p`, below gitignore context `above` -/
